@@ -182,6 +182,28 @@ class Forest(object):
                 except Exception as e:
                     a.raised = e
                 return a
+            if k == 'assign_text':
+                parent = self.resolve(op['parent'], True)
+                cls = type(parent).__name__
+                names = self.child_names(parent)
+                if not names:
+                    return Applied('skipped')
+                name = names[op['k'] % len(names)]
+                if cls in ('Message', 'Group'):
+                    if name in T.lib(parent.version).GROUPS:
+                        return Applied('skipped')
+                    text = '%s|%d' % (name, op['val_k'] + 1)
+                else:
+                    text = ['a', 'b', 'c', 'x' * 250][op['val_k'] % 4]
+                a = Applied('assign_text' + (':idx' if op.get('i') is not None else ''), parent)
+                try:
+                    if op.get('i') is None:
+                        setattr(parent, name.lower() if op['k'] % 2 else name, text)
+                    else:
+                        getattr(parent, name)[op['i']] = text
+                except Exception as e:
+                    a.raised = e
+                return a
             if k in ('read', 'twrite'):
                 el = self.resolve(op['start'], True)
                 a = Applied(k, el)
@@ -435,6 +457,7 @@ def check_forest(f):
 # operation strategies
 
 REF = st.fixed_dictionaries({'r': st.integers(0, 8), 'p': st.lists(st.integers(0, 5), max_size=4)})
+NEAR = st.fixed_dictionaries({'r': st.integers(0, 2), 'p': st.lists(st.integers(0, 1), max_size=1)})
 SHALLOW = st.fixed_dictionaries({'r': st.integers(0, 8), 'p': st.lists(st.integers(0, 5), max_size=2)})
 
 
@@ -450,6 +473,12 @@ def op_strategy():
         st.fixed_dictionaries({'op': st.just('reattach'), 'parent': SHALLOW, 'child': REF}),
         st.fixed_dictionaries({'op': st.just('add_x'), 'parent': SHALLOW, 'k': st.integers(0, 30), 'foreign': st.sampled_from([False, False, False, True])}),
         st.fixed_dictionaries({'op': st.just('add_x'), 'parent': SHALLOW, 'k': st.integers(0, 30), 'foreign': st.just(False)}),
+        st.fixed_dictionaries({'op': st.just('assign_text'), 'parent': NEAR, 'k': st.integers(0, 3), 'val_k': st.integers(0, 3),
+                               'i': st.one_of(st.none(), st.integers(-1, 2))}),
+        st.fixed_dictionaries({'op': st.just('assign_text'), 'parent': NEAR, 'k': st.integers(0, 3), 'val_k': st.integers(0, 3),
+                               'i': st.one_of(st.none(), st.integers(-1, 2))}),
+        st.fixed_dictionaries({'op': st.just('add_x_twice'), 'parent': NEAR, 'k': st.integers(0, 3)}),
+        st.fixed_dictionaries({'op': st.just('add_x'), 'parent': NEAR, 'k': st.integers(0, 3), 'foreign': st.just(False)}),
         st.fixed_dictionaries({'op': st.just('read'), 'start': SHALLOW, 'chain': st.lists(st.integers(0, 12), min_size=1, max_size=4)}),
         st.fixed_dictionaries({'op': st.just('twrite'), 'start': SHALLOW, 'chain': st.lists(st.integers(0, 12), min_size=1, max_size=4),
                                'val_k': st.integers(0, 3), 'bad': st.sampled_from([False, False, True])}),
@@ -476,5 +505,11 @@ def forest_cells():
 @st.composite
 def histories(draw, cells, max_ops):
     cell = draw(st.sampled_from(cells))
-    ops = draw(st.lists(op_strategy(), min_size=1, max_size=max_ops))
+    drawn = draw(st.lists(op_strategy(), min_size=1, max_size=max_ops))
+    ops = []
+    for op in drawn:
+        if op['op'] == 'add_x_twice':       # two children of the same name: two plain operations
+            ops += [dict(op, op='add_x', foreign=False), dict(op, op='add_x', foreign=False)]
+        else:
+            ops.append(op)
     return {'cell': cell, 'ops': ops}
